@@ -77,6 +77,18 @@ def main():
                          "stderr_tail": res.get("stderr_tail")}
     out = os.path.join(VERIF, "seeded", f"{cid}-{k}")
     os.makedirs(out, exist_ok=True)
+    prev_path = os.path.join(out, "meta.json")
+    if os.path.exists(prev_path):
+        prev = json.load(open(prev_path))
+        earlier = prev.get("earlier_attempts", [])
+        if prev.get("check"):
+            earlier.append({"verif_commit": prev.get("verif_commit"), "caught": prev["check"].get("caught"),
+                            "replay_reproduces": prev["check"].get("replay_reproduces")})
+        meta["earlier_attempts"] = earlier
+        for keep in ("pinned_suite_with_change", "strengthening"):
+            if keep in prev and keep not in meta:
+                meta[keep] = prev[keep]
+    meta["verif_commit"] = sh(["git", "-C", VERIF, "rev-parse", "--short", "HEAD"]).stdout.strip()
     shutil.copy(diff, os.path.join(out, "patch.diff"))
     shutil.copy(demo, os.path.join(out, "demo.py"))
     if notes and os.path.exists(notes):
